@@ -60,8 +60,8 @@ def random_specs(rng, n):
             v = Variant(ident=ident)
             r = rng.random()
             if r < 0.4:
-                m = rng.randint(1, 3)
-                lens = rng.sample([1, 2, 3, 5, 8], m)
+                m = rng.randint(1, 4)
+                lens = rng.sample([1, 2, 3, 5, 8, 11], m)
                 fill = rng.choice(["z", "z", "\t", "é", "\""])
                 v.serialize = []
                 for L in lens:
